@@ -305,35 +305,39 @@ fn complete_prefix<S: HasComponent<Component>>(
     input: &mut vm::ExecutionInput<S>,
 ) -> txl::Result<()> {
     // BUG: spaces and \relax are allowed after prefixes per TeX source sections 1211 and 404.
-    let found_prefix = match input.next()? {
-        None => false,
-        Some(t) => match t.value() {
-            token::Value::CommandRef(command_ref) => {
-                let tag = input.commands_map().get_tag(&command_ref);
-                if tag == Some(input.state().component().tags.global_tag) {
-                    prefix.global = Some(t);
-                    true
-                } else if tag == Some(input.state().component().tags.outer_tag) {
-                    prefix.outer = Some(t);
-                    true
-                } else if tag == Some(input.state().component().tags.long_tag) {
-                    prefix.long = Some(t);
-                    true
-                } else {
+    //
+    // This is a loop, and not a recursive call per prefix, so that the stack depth does not
+    // grow with the number of prefixes.
+    loop {
+        let found_prefix = match input.next()? {
+            None => false,
+            Some(t) => match t.value() {
+                token::Value::CommandRef(command_ref) => {
+                    let tag = input.commands_map().get_tag(&command_ref);
+                    if tag == Some(input.state().component().tags.global_tag) {
+                        prefix.global = Some(t);
+                        true
+                    } else if tag == Some(input.state().component().tags.outer_tag) {
+                        prefix.outer = Some(t);
+                        true
+                    } else if tag == Some(input.state().component().tags.long_tag) {
+                        prefix.long = Some(t);
+                        true
+                    } else {
+                        input.back(t);
+                        false
+                    }
+                }
+                _ => {
                     input.back(t);
                     false
                 }
-            }
-            _ => {
-                input.back(t);
-                false
-            }
-        },
-    };
-    if !found_prefix {
-        return Ok(());
+            },
+        };
+        if !found_prefix {
+            return Ok(());
+        }
     }
-    complete_prefix(prefix, input)
 }
 
 fn assert_only_global_prefix<S: TexlangState>(
